@@ -54,6 +54,14 @@ def gen_material(rng, mode=None):
              uv_sets=[(name(rng, 1, 8), rng.randrange(4)) for _ in range(rng.choice([0, 1, 2]))],
              color_sets=[(name(rng, 1, 8), rng.randrange(4)) for _ in range(rng.choice([0, 1]))],
              shpk=name(rng, 1, 24) + b".shpk", tex_flags=rng.choice([0, 0x8000]), version=rng.choice([0x1030000, 0x1030001, rng.getrandbits(32)]))
+    large = rng.random() < 0.12
+    if large:
+        # counts and heap sizes that cross the 8-bit / 12-bit / 15-bit boundaries of the offset and count fields (heap stays < 64 KiB: offsets are u16)
+        nt = rng.choice([50, 128, 200, 255])
+        lim = rng.choice([5000, 20000, 40000, 62000]) // nt
+        m["textures"] = [name(rng, max(3, lim - 30), max(4, lim - 6)) + b".tex" for _ in range(nt)]
+        m["uv_sets"] = [(name(rng, 1, 8), rng.randrange(4)) for _ in range(rng.choice([0, 2, 40, 255]))]
+        m["color_sets"] = [(name(rng, 1, 8), rng.randrange(4)) for _ in range(rng.choice([0, 1, 40]))]
     if len(m["textures"]) >= 2 and rng.random() < 0.3:
         order = list(range(len(m["textures"]))); rng.shuffle(order)
         m["heap_order"] = order
@@ -78,16 +86,17 @@ def gen_material(rng, mode=None):
         dye = [rng.getrandbits(32) for _ in range(32)]; m["dye_width"] = 4
     m["color_rows"] = rows
     m["dye_rows"] = dye
-    m["keys"] = [(rng.getrandbits(32), rng.getrandbits(32)) for _ in range(rng.choice([0, 1, 2, 6]))]
-    nval = rng.choice([0, 1, 4, 7, 16])
+    m["keys"] = [(rng.getrandbits(32), rng.getrandbits(32)) for _ in range(rng.choice([0, 1, 2, 6] + ([256, 300] if large else [])))]
+    nval = rng.choice([0, 1, 4, 7, 16] + ([300, 1000] if large else []))
     m["values"] = [rng.choice([0, 0x3F800000, 0xBF800000, 0x7FC00000, rng.getrandbits(32)]) for _ in range(nval)]
     m["constants"] = []
-    for _ in range(rng.choice([0, 1, 3, 6]) if nval else 0):
+    for _ in range(rng.choice([0, 1, 3, 6] + ([257, 400] if large else [])) if nval else 0):
         cnt = rng.randint(1, min(4, nval))
         first = rng.randint(0, nval - cnt)
         m["constants"].append((rng.getrandbits(32), first * 4, cnt * 4))
     m["samplers"] = [(rng.choice(list(mtrl.USAGES)), rng.getrandbits(32), rng.randrange(256), rng.randrange(256), rng.randrange(256), rng.randrange(256))
-                     for _ in range(rng.choice([0, 1, 2, 5]))]
+                     for _ in range(rng.choice([0, 1, 2, 5] + ([256, 300] if large else [])))]
+    m["large"] = large
     m["mat_flags"] = rng.getrandbits(32)
     return m, mode, rows, dye
 
@@ -96,7 +105,7 @@ def mtrl_case(ctx, rng):
     m, mode, rows, dye = gen_material(rng)
     data = mtrl.build(m)
     f = ctx.write("m.mtrl", data)
-    ctx.case(digest(data), rows is not None or bool(m["constants"]), ["mtrl", "mtrl-mode:" + mode, "mtrl-tex:%d" % len(m["textures"]), "mtrl-heap:" + ("permuted" if m.get("heap_order") else "sequential")],
+    ctx.case(digest(data), rows is not None or bool(m["constants"]), ["mtrl", "mtrl-mode:" + mode, "mtrl-tex:%s" % (len(m["textures"]) if len(m["textures"]) <= 6 else ">6"), "mtrl-strings:%s" % ("<4KiB" if len(b"".join(m["textures"])) < 4000 else "<32KiB" if len(b"".join(m["textures"])) < 32000 else ">=32KiB"), "mtrl-heap:" + ("permuted" if m.get("heap_order") else "sequential")],
              sample=dict(mode=mode, textures=[t.decode() for t in m["textures"][:2]], shpk=m["shpk"].decode(), constants=len(m["constants"]), samplers=len(m["samplers"])))
     rec = ctx.call("mtrl.parse", f, input_bytes=len(data))
     if not ctx.check_mon(rec, len(data), files=[f]):
